@@ -100,6 +100,11 @@ def ensure_facts(repo=None, force=False, log=None):
     """returns (facts_dir, tree_hash, n_files, extracted: bool, seconds)"""
     repo = repo or REPO
     t0 = time.time()
+    pre = os.environ.get("CW_FACTS_DIR")
+    if pre:
+        # development hook (tools/corpus.py): rules re-evaluated on facts extracted earlier for a corpus patch;
+        # no registered command sets it
+        return pre, "prebuilt:" + os.path.basename(pre), 0, False, 0.0
     os.makedirs(CACHE, exist_ok=True)
     lock = open(os.path.join(CACHE, "lock"), "w")
     fcntl.flock(lock, fcntl.LOCK_EX)
